@@ -83,5 +83,31 @@ Definition tag_step (reg : registry) (keys : list key) (m : tmap) (now : Z) (e :
   | TDeleteTags t => delete_tag reg m now t
   end.
 
+(* The same step when only the keys in `probed` are read between the commands: every other key stays in the store past its
+   deadline until a command touches it (Memory._live_entry purges an expired entry it meets, with the callback):
+     set          writes over an expired entry without purging it (Memory._set) - its stale memberships stay
+     incr         reads the key first: an expired entry is purged with the callback
+     delete       an expired entry is purged with the callback (and False returned), a live one deleted with the callback
+     delete_match scan meets every stored key with the prefix: expired ones are purged, live ones deleted - callbacks for both
+     delete_tags  pops the members of the live set and deletes each stored one with the callback
+   `keys` = every data key of the history (what scan can meet).  With probed = keys this is tag_step (every key is live or
+   absent when the command runs); the theorems are about tag_step, the lazy variant is tied by the correspondence and judged
+   by the same oracle. *)
+Definition tag_step_lazy (reg : registry) (probed keys : list key) (m : tmap) (now : Z) (e : tev) : tmap :=
+  let m := purge reg probed m now in
+  match e with
+  | TSet k v ttl tags => add_tags (s_write m now k v ttl) now k ttl tags
+  | TIncr k by_ ttl tags =>
+      let m := purge reg [k] m now in
+      match s_get m now k with
+      | Some (VInt z) => add_tags (s_write m now k (VInt (z + by_)) (if z + by_ =? 1 then ttl else 0)) now k ttl tags
+      | None => add_tags (s_write m now k (VInt by_) (if by_ =? 1 then ttl else 0)) now k ttl tags
+      | Some _ => m
+      end
+  | TDel k => raw_delete reg m now k
+  | TDelPrefix p => fold_left (fun m' k => match drop_prefix p k with Some _ => raw_delete reg m' now k | None => m' end) keys m
+  | TDeleteTags t => delete_tag reg m now t
+  end.
+
 (* which of the probed keys are readable *)
 Definition readable (keys : list key) (m : tmap) (now : Z) : list bool := map (fun k => isSome (s_look m now k)) keys.
